@@ -13,6 +13,11 @@ class Panic(Exception):
         self.kind = kind; self.msg = msg; self.stack = tuple(stack)
 
 
+class Pruned(Exception):
+    """UC mode: the path left the type's value space (e.g. a lazily shaped discriminant hit `unreachable`)"""
+    pass
+
+
 class Unsupported(Exception):
     """The executor met something it has no semantics for.  Never a verdict: checks exit 2."""
     pass
@@ -218,11 +223,11 @@ class CharsV:
 class LazyV:
     """UC mode: result of a havoc'd callee / unconstrained input, shaped on demand"""
     n = 0
-    __slots__ = ('id', 'tag', 'disc', 'kids', 'ival', 'ty')
+    __slots__ = ('id', 'tag', 'disc', 'kids', 'ival', 'ty', 'parent')
 
-    def __init__(s, tag, ty=None):
+    def __init__(s, tag, ty=None, parent=None):
         LazyV.n += 1
-        s.id = LazyV.n; s.tag = tag; s.disc = None; s.kids = {}; s.ival = None; s.ty = ty
+        s.id = LazyV.n; s.tag = tag; s.disc = None; s.kids = {}; s.ival = None; s.ty = ty; s.parent = parent
 
     def discriminant(s):
         if s.disc is None:
@@ -231,13 +236,15 @@ class LazyV:
 
     def kid(s, k):
         if k not in s.kids:
-            s.kids[k] = LazyV('%s.%s' % (s.tag, k))
+            s.kids[k] = LazyV('%s.%s' % (s.tag, k), parent=s)
         return s.kids[k]
 
     def as_int(s, bits, signed=0):
         if s.ival is None:
             s.ival = z3.BitVec('v%d' % s.id, bits)
         z = s.ival
+        if z3.is_bool(z):
+            z = z3.If(z, z3.BitVecVal(1, bits), z3.BitVecVal(0, bits))
         if z.size() != bits:
             z = z3.Extract(bits - 1, 0, z) if z.size() > bits else z3.ZeroExt(bits - z.size(), z)
         return IntV(z, bits, signed)
@@ -245,6 +252,8 @@ class LazyV:
     def as_bool(s):
         if s.ival is None:
             s.ival = z3.Bool('b%d' % s.id)
+        if not z3.is_bool(s.ival):
+            return BoolV(s.ival != 0)
         return BoolV(s.ival)
 
     def __repr__(s):
